@@ -665,7 +665,7 @@ def gen_cases(prop, u, seed, tier, probe=None):
         for k in range(150 if quick else 1500):
             n = rng.choice([5, 10, 20, 50, 120]) if quick else rng.choice([10, 50, 200, 600])
             ops = ';'.join(rand_op() for _ in range(n))
-            cs.add('cursor %s %s' % (rng.choice(['16', '32', '64']), ops), kind='cursor', family='random-long', val=ops)
+            cs.add('cursor %s%s %s' % (rng.choice(['16', '32', '64']), rng.choice(['', '', 'd', 'c0', 'c1', 'c15', 'c16', 'c17', 'c100', 'c4097']), ops), kind='cursor', family='random-long', val=ops)
         # positions at and above 2^63 (legal, reachable only through set_position / seek; nothing is written there):
         # relative seeks whose base or result is huge, reads there, the overflow corners
         M63, I64MAX, U64MAX = 1 << 63, (1 << 63) - 1, (1 << 64) - 1
